@@ -152,6 +152,18 @@ func drawListing(t *rapid.T) sitemodel.Listing {
 		}
 		l.Funcs = append(l.Funcs, fn)
 	}
+	// scope bait of the other kind: a function whose very last line is "XORL AX, AX" (no RET behind it), and the next
+	// function opens with a site as the first line after its header
+	if len(l.Funcs) >= 2 && rapid.IntRange(0, 4).Draw(t, "xorAcrossHeader") == 0 {
+		i := rapid.IntRange(0, len(l.Funcs)-2).Draw(t, "xorAt")
+		if !sitemodel.IsWrapperFunc(l.Funcs[i+1].Name) {
+			l.Funcs[i].Items = append(l.Funcs[i].Items, sitemodel.Item{Kind: sitemodel.XorOnly})
+			l.Funcs[i].NoRet = true
+			l.Funcs[i+1].NoLead = true
+			bare := sitemodel.Item{Kind: sitemodel.BareSite, Instr: triggers[rapid.IntRange(0, len(triggers)-1).Draw(t, "xorTrigger")]}
+			l.Funcs[i+1].Items = append([]sitemodel.Item{bare}, l.Funcs[i+1].Items...)
+		}
+	}
 	return l
 }
 
